@@ -88,12 +88,15 @@ impl<C: Config> Engine<C> {
         &'_ self,
     ) -> WriteTransaction<C> {
         // the guard must be dropped here to make the future Send
+        crate::verif_point!("batch.new", None, 0);
         self.computation_graph.database.sync.write_manager.new_write_batch()
     }
 
     pub(in crate::engine::computation_graph) async fn acquire_active_computation_guard(
         &self,
     ) -> (ActiveComputationGuard, Timestamp) {
+        crate::verif_pause!("phase:r:pre", None);
+        crate::verif_point!("phase:r:req", None, 0);
         let guard = self
             .computation_graph
             .database
@@ -102,6 +105,8 @@ impl<C: Config> Engine<C> {
             .clone()
             .read_owned()
             .await;
+        crate::verif_point!("phase:r:acq", None, 0);
+        crate::verif_pause!("phase:r:locked", None);
 
         let timestamp = Timestamp(
             self.computation_graph
@@ -110,6 +115,7 @@ impl<C: Config> Engine<C> {
                 .timestamp
                 .load(Ordering::SeqCst),
         );
+        crate::verif_point!("phase:r:sample", None, timestamp.0);
 
         (ActiveComputationGuard(Arc::new(guard)), timestamp)
     }
@@ -117,12 +123,15 @@ impl<C: Config> Engine<C> {
     pub(in crate::engine::computation_graph) async fn acquire_active_input_session_guard(
         &self,
     ) -> (WriteTransaction<C>, ActiveInputSessionGuard) {
+        crate::verif_pause!("phase:w:pre", None);
         let mut write_buffer = self
             .computation_graph
             .database
             .sync
             .write_manager
             .new_write_batch();
+        crate::verif_point!("batch.new", None, 1);
+        crate::verif_point!("phase:w:batch", None, 0);
 
         let prev = self
             .computation_graph
@@ -131,6 +140,8 @@ impl<C: Config> Engine<C> {
             .timestamp
             .fetch_add(1, Ordering::SeqCst);
         let new_timestamp = prev + 1;
+        crate::verif_point!("phase:w:bump", None, new_timestamp);
+        crate::verif_pause!("phase:w:bumped", None);
 
         self.computation_graph
             .database
@@ -138,6 +149,11 @@ impl<C: Config> Engine<C> {
             .timestamp_map
             .insert((), Timestamp(new_timestamp), &mut write_buffer)
             .await;
+        crate::verif_point!("epoch.bump", None, new_timestamp);
+        crate::verif_point!("phase:w:stage", None, new_timestamp);
+        crate::verif_pause!("is.bumped", None);
+        crate::verif_pause!("phase:w:staged", None);
+        crate::verif_point!("phase:w:req", None, 0);
 
         let guard = self
             .computation_graph
@@ -147,6 +163,8 @@ impl<C: Config> Engine<C> {
             .clone()
             .write_owned()
             .await;
+        crate::verif_point!("is.acq", None, 0);
+        crate::verif_point!("phase:w:acq", None, 0);
 
         (write_buffer, ActiveInputSessionGuard(Arc::new(guard)))
     }
@@ -155,6 +173,7 @@ impl<C: Config> Engine<C> {
         &self,
         write_buffer: WriteTransaction<C>,
     ) {
+        crate::verif_point!("batch.submit", None, 0);
         self.computation_graph
             .database
             .sync
